@@ -89,13 +89,23 @@ func BuildTool(name, pkg string) (string, error) {
 	out := filepath.Join(buildDir, fmt.Sprintf("%s-%s-%d", name, repoTag(), os.Getpid()))
 	args := append([]string{"build"}, mf...)
 	args = append(args, "-o", out, pkg)
-	cmd := exec.Command("go", args...)
-	cmd.Dir = filepath.Join(verifRoot, "harness")
-	cmd.Env = goEnv()
-	if b, err := cmd.CombinedOutput(); err != nil {
-		return "", fmt.Errorf("go %s: %v\n%s", strings.Join(args, " "), err, b)
+	// a loaded machine occasionally fails a build for reasons that have nothing to do with the
+	// sources (fork limits, a concurrently trimmed build cache): try a few times
+	var last error
+	for attempt := 0; attempt < 4; attempt++ {
+		if attempt > 0 {
+			time.Sleep(time.Duration(attempt) * 3 * time.Second)
+		}
+		cmd := exec.Command("go", args...)
+		cmd.Dir = filepath.Join(verifRoot, "harness")
+		cmd.Env = goEnv()
+		b, err := cmd.CombinedOutput()
+		if err == nil {
+			return out, nil
+		}
+		last = fmt.Errorf("go %s: %v\n%s", strings.Join(args, " "), err, b)
 	}
-	return out, nil
+	return "", last
 }
 
 var (
@@ -129,13 +139,32 @@ func RemoveTools() {
 // RunPlugin feeds a serialised CodeGeneratorRequest to the plugin binary. err is non-nil when the
 // process could not be run or exited non-zero (stderr then carries the message).
 func RunPlugin(bin string, reqBytes []byte) (stdout, stderr []byte, err error) {
-	cmd := exec.Command(bin)
-	cmd.Stdin = bytes.NewReader(reqBytes)
-	var so, se bytes.Buffer
-	cmd.Stdout, cmd.Stderr = &so, &se
-	cmd.Env = append(os.Environ(), "GOMAXPROCS=2")
-	err = cmd.Run()
-	return so.Bytes(), se.Bytes(), err
+	for attempt := 0; ; attempt++ {
+		cmd := exec.Command(bin)
+		cmd.Stdin = bytes.NewReader(reqBytes)
+		var so, se bytes.Buffer
+		cmd.Stdout, cmd.Stderr = &so, &se
+		cmd.Env = append(os.Environ(), "GOMAXPROCS=2")
+		err = cmd.Run()
+		if _, exited := err.(*exec.ExitError); err != nil && !exited && attempt < 3 {
+			time.Sleep(time.Duration(attempt+1) * time.Second) // could not be started (fork limit): not an answer
+			continue
+		}
+		if ee, ok := err.(*exec.ExitError); ok && !ee.Exited() && attempt < 3 {
+			time.Sleep(time.Duration(attempt+1) * time.Second) // killed by a signal
+			continue
+		}
+		return so.Bytes(), se.Bytes(), err
+	}
+}
+
+// Started reports whether err (from RunPlugin) still describes a process that ran to an exit status.
+func Started(err error) bool {
+	if err == nil {
+		return true
+	}
+	ee, ok := err.(*exec.ExitError)
+	return ok && ee.Exited()
 }
 
 var (
